@@ -24,6 +24,7 @@
 import PypyrModel.Config
 import Generated.ConfigProps
 import Props.Lemmas.C20_Merge
+import Props.Lemmas.C20_Errors
 
 namespace Pypyr.C20
 open Pypyr Pypyr.Config
@@ -52,7 +53,7 @@ def exFiles : Files :=
     that single file instead, with `raise_not_found=True` — then `./pyproject.toml` read through
     the `[tool.pypyr]` loader, then the local yaml file (`$PYPYR_CONFIG_LOCAL` or
     `pypyr-config.yaml`). -/
-theorem init_order (e : Env) (hs : e.skip = false) :
+theorem init_order (e : Env) (hs : e.skip = false) (hp : e.platformFails = false) :
     initOrder e =
       (match e.globalPath? with
        | some g => [{ path := pathStr g, loader := .yaml, mustExist := true }]
@@ -60,7 +61,7 @@ theorem init_order (e : Env) (hs : e.skip = false) :
                    ++ [{ path := userConfigPath e, loader := .yaml, mustExist := false }])
       ++ [{ path := "pyproject.toml", loader := .pyproject, mustExist := false },
           { path := pathStr (e.getD "PYPYR_CONFIG_LOCAL" "pypyr-config.yaml"), loader := .yaml, mustExist := false }] := by
-  simp only [initOrder, hs, lookOrder, xdgLooks, localLooks]
+  simp only [initOrder_unfold e hs hp, lookOrder, xdgLooks, localLooks]
   cases e.globalPath? <;> rfl
 
 example : (initOrder exEnv).map (·.path) =
@@ -73,13 +74,14 @@ example : (initOrder exEnvGlobal).map (fun l => (l.path, l.mustExist)) =
 /-- **common directories: last-listed lowest.** If directory `a` is listed before `b` in
     `$XDG_CONFIG_DIRS`, `b`'s file is consulted (hence overridden) before `a`'s, and both before
     the user file, `pyproject.toml` and the local file. -/
-theorem common_last_listed_lowest (e : Env) (hs : e.skip = false) (hg : e.globalPath? = none)
+theorem common_last_listed_lowest (e : Env) (hs : e.skip = false) (hp : e.platformFails = false)
+    (hg : e.globalPath? = none)
     (pre mid post : List String) (a b : String)
     (h : commonConfigPaths e = pre ++ a :: mid ++ b :: post) :
     (initOrder e).map (·.path) =
       post.reverse ++ b :: mid.reverse ++ a :: pre.reverse ++
         [userConfigPath e, "pyproject.toml", pathStr (e.getD "PYPYR_CONFIG_LOCAL" "pypyr-config.yaml")] := by
-  rw [init_order e hs, hg]
+  rw [init_order e hs hp, hg]
   simp [h, List.map_reverse, Function.comp_def]
 
 example : commonConfigPaths exEnv = [] ++ "/S/c1/pypyr/config.yaml" :: [] ++ "/S/c2/pypyr/config.yaml" :: [] := by
@@ -92,21 +94,25 @@ theorem global_replaces_common_and_user (e : Env) (hs : e.skip = false) (g : Str
     (hg : e.globalPath? = some g) :
     (initOrder e).map (·.path) =
       [pathStr g, "pyproject.toml", pathStr (e.getD "PYPYR_CONFIG_LOCAL" "pypyr-config.yaml")] := by
-  rw [init_order e hs, hg]; rfl
+  rw [init_order e hs (platformFails_of_global e g hg), hg]; rfl
 
 example : exEnvGlobal.globalPath? = some "/S/g.yaml" ∧ exEnvGlobal.skip = false := by decide +kernel
 
 /-- **…and must exist**: if the named file cannot be opened, `init` raises the config error
     "Could not open config file" before anything else is looked at; the config is untouched. -/
 theorem global_must_exist (e : Env) (fs : Files) (hs : e.skip = false) (g : String)
-    (hg : e.globalPath? = some g) (hmiss : fs.get? (pathStr g) = none) :
+    (hg : e.globalPath? = some g) (hmiss : fs.opens (pathStr g) = false) :
     initSt e fs = (defaults e, some (.notFound (pathStr g)))
       ∧ (CfgErr.notFound (pathStr g)).isConfigError = true
       ∧ consulted fs (defaults e) (initOrder e) = [pathStr g] := by
+  have hp := platformFails_of_global e g hg
   refine ⟨?_, rfl, ?_⟩
-  · simp only [initSt, hs, lookOrder, hg]
+  · rw [initSt_eq, initOn_unfold _ e fs hs hp]
+    simp only [lookOrder, hg]
     exact runLooks_missing fs (defaults e) _ _ rfl hmiss
-  · simp [initOrder, hs, lookOrder, hg, consulted, handlePath, load, hmiss]
+  · rw [initOrder_unfold e hs hp]
+    simp only [lookOrder, hg, List.cons_append, List.nil_append, consulted]
+    rw [handlePath_missing fs (defaults e) _ rfl hmiss]
 
 example : (initSt exEnvGlobal exFiles).2 = some (.notFound "/S/g.yaml") := by decide +kernel
 
@@ -124,17 +130,17 @@ theorem consulted_is_prefix (e : Env) (fs : Files) :
 theorem consulted_all_when_ok (e : Env) (fs : Files) (st' : ConfigState) (hs : e.skip = false)
     (h : initSt e fs = (st', none)) :
     consulted fs (defaults e) (initOrder e) = (initOrder e).map (·.path) := by
-  simp only [initSt, hs] at h
-  simp only [initOrder, hs]
+  obtain ⟨hp, h⟩ := initOn_ok hs (by rw [← initSt_eq]; exact h)
+  rw [initOrder_unfold e hs hp]
   exact consulted_all_of_ok fs (defaults e) st' (lookOrder e) h
 
 /-- **`init` is the fold of `handle_path` over the ordered look-ups**, starting from the
     defaults, an absent file contributing nothing (provided a `$PYPYR_CONFIG_GLOBAL` file
     exists — otherwise `global_must_exist`). -/
-theorem init_is_fold (e : Env) (fs : Files) (hs : e.skip = false)
-    (hex : ∀ g, e.globalPath? = some g → (fs.get? (pathStr g)).isSome) :
+theorem init_is_fold (e : Env) (fs : Files) (hs : e.skip = false) (hp : e.platformFails = false)
+    (hex : ∀ g, e.globalPath? = some g → fs.opens (pathStr g) = true) :
     initSt e fs = applyAll (defaults e) (payloadsOf fs (initOrder e)) := by
-  simp only [initSt, initOrder, hs]
+  rw [initSt_eq, initOn_unfold _ e fs hs hp, initOrder_unfold e hs hp]
   apply runLooks_eq_applyAll
   intro l hl hm
   simp only [lookOrder, xdgLooks, localLooks] at hl
@@ -184,9 +190,9 @@ theorem scalar_highest_wins (e : Env) (fs : Files) (st' : ConfigState) (hs : e.s
   obtain ⟨src, hsrc⟩ := Option.isSome_iff_exists.mp hsome
   have hdef : defaultOf e k = some (evalDefault e src) := by simp [defaultOf, hsrc]
   refine ⟨evalDefault e src, hdef, ?_⟩
-  simp only [initSt, hs] at h
+  obtain ⟨hp, h⟩ := initOn_ok hs (by rw [← initSt_eq]; exact h)
   have hall := runLooks_ok_applyAll h
-  simp only [initOrder, hs]
+  rw [initOrder_unfold e hs hp]
   apply scalar_highest_wins_list _ _ _ hall
   rw [defaults_scalar, hnd, hdef]; rfl
 
@@ -225,11 +231,11 @@ theorem dict_union_precedence (e : Env) (fs : Files) (st' : ConfigState) (hs : e
     (h : initSt e fs = (st', none)) (name : String) (hn : name ∈ dictProps) :
     ∃ d', st'.dict? name = some d' ∧
       ∀ key, dictGet? d' key = highestDict name key ((payloadsOf fs (initOrder e)).map (·.2)) := by
-  simp only [initSt, hs] at h
+  obtain ⟨hp, h⟩ := initOn_ok hs (by rw [← initSt_eq]; exact h)
   have hall := runLooks_ok_applyAll h
   obtain ⟨d', hd', hkeys⟩ := applyAll_ok_dict hall name [] (defaults_dict e name hn)
   refine ⟨d', hd', fun key => ?_⟩
-  simp only [initOrder, hs]
+  rw [initOrder_unfold e hs hp]
   rw [hkeys key]
   simp [dictGet?]
 
@@ -275,7 +281,7 @@ theorem unknown_rejected_atomically (st : ConfigState) (path : String) (kvs : Ct
     cases hk : unknownKeys kvs with
     | nil => exact absurd hk h
     | cons _ _ => rfl
-  simp [applyFileSt, hne, update, hu]
+  simp [applyFileSt, applyFileStOrd, hne, updateOrd, hu]
 
 /-- A key is unknown exactly when it is not one of the 17 writable props. -/
 theorem unknownKeys_ne_nil_iff (kvs : Ctx) :
@@ -320,11 +326,16 @@ example : (initSt exEnv (("/S/xh/pypyr/config.yaml", .nonMapping false) :: exFil
 theorem falsy_non_mapping_accepted_pre_fix (st : ConfigState) (path : String) :
     applyFileStPreFix st path (.nonMapping false) = (st, none) := rfl
 
-/-- The old and the current rule differ on nothing else. -/
+/-- The old and the current rule differ on nothing else (among what a loader can RETURN: a parse
+    error or the AttributeError of a non-table `tool` is raised by the loader, before either rule). -/
 theorem pre_fix_differs_only_there (st : ConfigState) (path : String) (p : Payload)
-    (h : p ≠ .nonMapping false) : applyFileStPreFix st path p = applyFileSt st path p := by
+    (h : p ≠ .nonMapping false) (hr : ∀ exc, p ≠ .parseError exc) (ht : p ≠ .toolNotTable) :
+    applyFileStPreFix st path p = applyFileSt st path p := by
   cases p with
   | none => rfl
+  | unreadable kd => rfl
+  | parseError exc => exact absurd rfl (hr exc)
+  | toolNotTable => exact absurd rfl ht
   | nonMapping t =>
     cases t with
     | false => exact absurd rfl h
@@ -332,7 +343,7 @@ theorem pre_fix_differs_only_there (st : ConfigState) (path : String) (p : Paylo
   | mapping kvs =>
     cases kvs with
     | nil => rfl
-    | cons a as => simp [applyFileStPreFix, applyFileSt, Payload.truthy]
+    | cons a as => simp [applyFileStPreFix, applyFileSt, applyFileStOrd, Payload.truthy, update]
 
 example : applyFileStPreFix (defaults exEnv) "pypyr-config.yaml" (.nonMapping false) = (defaults exEnv, none)
     ∧ (applyFileSt (defaults exEnv) "pypyr-config.yaml" (.nonMapping false)).2
@@ -406,15 +417,16 @@ theorem init_skip_at_call_time (st : ConfigState) (e : Env) (fs : Files) (hs : e
 /-- **no skip at call time.** If it is not truthy when `init` runs, then — even on an object built
     while it *was* set, or on which an earlier `init` skipped — the look-ups are those of the
     *current* environment, in `init_order`'s order, merged into the object as it is. -/
-theorem init_looks_at_call_time (st : ConfigState) (e : Env) (fs : Files) (hs : e.skip = false) :
+theorem init_looks_at_call_time (st : ConfigState) (e : Env) (fs : Files) (hs : e.skip = false)
+    (hp : e.platformFails = false) :
     initOn st e fs = runLooks fs st (lookOrder e) ∧
     consulted fs st (initOrder e) <+: (initOrder e).map (·.path) ∧
     (∀ st', initOn st e fs = (st', none) →
       consulted fs st (initOrder e) = (initOrder e).map (·.path)) := by
-  refine ⟨by simp [initOn, hs], consulted_prefix fs st (initOrder e), ?_⟩
+  refine ⟨initOn_unfold st e fs hs hp, consulted_prefix fs st (initOrder e), ?_⟩
   intro st' h
-  simp only [initOn, hs] at h
-  simp only [initOrder, hs]
+  rw [initOn_unfold st e fs hs hp] at h
+  rw [initOrder_unfold e hs hp]
   exact consulted_all_of_ok fs st st' (lookOrder e) h
 
 /-- **scalar_highest_wins, on any object.** After a successful `init` under `e`, every scalar has
@@ -423,8 +435,8 @@ theorem init_looks_at_call_time (st : ConfigState) (e : Env) (fs : Files) (hs : 
 theorem init_on_scalar_highest_wins (st st' : ConfigState) (e : Env) (fs : Files) (hs : e.skip = false)
     (h : initOn st e fs = (st', none)) (k : String) (d : Val) (hd : st.scalar? k = some d) :
     st'.scalar? k = some ((highest k ((payloadsOf fs (initOrder e)).map (·.2))).getD d) := by
-  simp only [initOn, hs] at h
-  simp only [initOrder, hs]
+  obtain ⟨hp, h⟩ := initOn_ok hs h
+  rw [initOrder_unfold e hs hp]
   exact scalar_highest_wins_list st st' _ (runLooks_ok_applyAll h) k d hd
 
 /-- **dict_union_precedence, on any object.** … and `vars` / `shortcuts` are the key-wise union of
@@ -434,8 +446,8 @@ theorem init_on_dict_union_precedence (st st' : ConfigState) (e : Env) (fs : Fil
     ∃ d', st'.dict? name = some d' ∧
       ∀ key, dictGet? d' key =
         (highestDict name key ((payloadsOf fs (initOrder e)).map (·.2))).or (dictGet? d0 key) := by
-  simp only [initOn, hs] at h
-  simp only [initOrder, hs]
+  obtain ⟨hp, h⟩ := initOn_ok hs h
+  rw [initOrder_unfold e hs hp]
   exact dict_union_precedence_list st st' _ (runLooks_ok_applyAll h) name d0 h0
 
 theorem runOps_length (fs : Files) (objs : Objs) (ops : List Op) : (runOps fs objs ops).length = ops.length := by
@@ -495,14 +507,351 @@ example :
           "pyproject.toml", "pypyr-config.yaml"]] := by
   decide +kernel
 
-/-! ### 8. Every rejection the property names is a config error -/
+/-! ### 8. Which rejections are config errors -/
 
-/-- The errors for a missing `$PYPYR_CONFIG_GLOBAL`, a non-mapping file and an unknown setting
-    are `ConfigError`s; the only other exception the model can produce is the `TypeError` of
-    `dict.update` on a dict prop whose value is not a mapping (outside the property text). -/
+/-- The errors for a missing `$PYPYR_CONFIG_GLOBAL`, a non-mapping file and an unknown setting —
+    the rejections the property names — are `ConfigError`s; every other exception the model can
+    produce is one of: `dict.update` refusing the value of `vars` / `shortcuts`, the parser's own
+    error, the AttributeError of a non-table `tool`, the OSError of the Android finder. -/
 theorem rejections_are_config_errors (err : CfgErr) :
-    err.isConfigError = true ∨ ∃ d, err = .dictUpdate d := by
-  cases err <;> first | exact Or.inl rfl | exact Or.inr ⟨_, rfl⟩
+    err.isConfigError = true ∨ (∃ d exc, err = .dictUpdate d exc) ∨ (∃ p exc, err = .parse p exc) ∨
+      err = .toolNotTable ∨ err = .androidDir := by
+  cases err
+  · exact Or.inl rfl
+  · exact Or.inl rfl
+  · exact Or.inl rfl
+  · exact Or.inr (Or.inl ⟨_, _, rfl⟩)
+  · exact Or.inr (Or.inr (Or.inl ⟨_, _, rfl⟩))
+  · exact Or.inr (Or.inr (Or.inr (Or.inl rfl)))
+  · exact Or.inr (Or.inr (Or.inr (Or.inr rfl)))
+
+/-! ### 10. The platform: `get_platform_dir_finder`
+
+  Judged domain: `Xdg` / `MacOs` / `Windows` (`e.isAndroid = false`). The Android branch is
+  modelled only so that "this environment selects it" is part of the model and of the tie. -/
+
+def exEnvAndroid : Env :=
+  { exEnv with vars := ("ANDROID_DATA", "/data") :: ("ANDROID_ROOT", "/system") :: exEnv.vars }
+
+/-- **android_test_comes_first.** Whatever `sys.platform` is: with `$ANDROID_DATA == '/data'` and
+    `$ANDROID_ROOT == '/system'` the `Android` finder is used — and its constructor raises when no
+    app folder is found; with any other values the finder is the one of `sys.platform`. -/
+theorem android_test_comes_first (e : Env) :
+    (e.isAndroid = true → platformOf e = match e.androidDir with
+        | some d => .ok (.android d)
+        | none => .error .androidDir) ∧
+    (e.isAndroid = false → platformOf e = .ok (.xdg e.platform)) := by
+  constructor
+  · intro h
+    cases hd : e.androidDir <;> simp [platformOf, h, hd]
+  · intro h
+    simp [platformOf, h]
+
+theorem isAndroid_iff (e : Env) :
+    e.isAndroid = true ↔ e.get? "ANDROID_DATA" = some "/data" ∧ e.get? "ANDROID_ROOT" = some "/system" := by
+  simp [Env.isAndroid]
+
+/-- **android_env_escapes_init.** `$ANDROID_DATA == '/data'` and `$ANDROID_ROOT == '/system'` are how
+    pypyr decides it runs ON Android: an environment that sets them declares the platform to be
+    Android, and the Android branch is OUTSIDE the domain the property is judged on (the harness
+    gives no verdict there, it only checks model == implementation). What the code does there, for the
+    record: with no `$PYPYR_CONFIG_GLOBAL`, no skip and no app folder to be found, `init()` raises
+    `OSError` — not a `ConfigError` — before any file is looked at, whatever files exist, and
+    leaves the object untouched. -/
+theorem android_env_escapes_init (st : ConfigState) (e : Env) (fs : Files) (hs : e.skip = false)
+    (hg : e.globalPath? = none) (ha : e.isAndroid = true) (hd : e.androidDir = none) :
+    initOn st e fs = (st, some .androidDir) ∧ CfgErr.androidDir.isConfigError = false ∧
+    CfgErr.androidDir.name = "OSError" ∧ consulted fs st (initOrder e) = [] := by
+  have hp : e.platformFails = true := by simp [Env.platformFails, hg, platformOf, ha, hd]
+  refine ⟨by simp [initOn, hs, hp], rfl, rfl, by simp [initOrder, hs, hp, consulted]⟩
+
+/-- … `$PYPYR_CONFIG_GLOBAL` (the platform is never asked) and `$PYPYR_SKIP_INIT` avoid it. -/
+theorem android_env_harmless_with_global_or_skip (e : Env) :
+    (∀ g, e.globalPath? = some g → e.platformFails = false) ∧
+    (e.skip = true → ∀ st fs, (initOn st e fs).2 = none) := by
+  refine ⟨fun g hg => platformFails_of_global e g hg, fun hs st fs => by simp [initOn, hs]⟩
+
+-- every file valid, a plain Linux `sys.platform`: OSError, nothing applied
+example : exEnvAndroid.platform = .posix ∧ exEnvAndroid.skip = false ∧
+    initSt exEnvAndroid exFiles = (defaults exEnvAndroid, some .androidDir) ∧
+    (initSt { exEnvAndroid with vars := ("PYPYR_CONFIG_GLOBAL", "pypyr-config.yaml") :: exEnvAndroid.vars } exFiles).2 = none := by
+  decide +kernel
+
+/-- with an app folder the Android finder names ONE file, as the common and as the user file: it is
+    handled twice (harmless: `file_listed_twice_*` below). -/
+theorem android_paths (e : Env) (d : String) (hs : e.skip = false) (hg : e.globalPath? = none)
+    (ha : e.isAndroid = true) (hd : e.androidDir = some d) :
+    (initOrder e).map (·.path) =
+      [androidCfg d, androidCfg d, "pyproject.toml", pathStr (e.getD "PYPYR_CONFIG_LOCAL" "pypyr-config.yaml")] := by
+  have hpo : platformOf e = .ok (.android d) := by simp [platformOf, ha, hd]
+  have hp : e.platformFails = false := by simp [Env.platformFails, hpo]
+  rw [initOrder_unfold e hs hp]
+  simp [lookOrder, hg, xdgLooks, localLooks, commonConfigPaths, userConfigPath, hpo]
+
+/-- Windows: `;` separates `$XDG_CONFIG_DIRS`, the default common directory is `$ALLUSERSPROFILE`
+    (`C:/ProgramData` when unset); macOS: `/Library/Application Support`. -/
+example :
+    commonConfigPaths { vars := [("XDG_CONFIG_DIRS", "/S/c1;/S/c:2")], platform := .windows } =
+      ["/S/c1/pypyr/config.yaml", "/S/c:2/pypyr/config.yaml"] ∧
+    commonConfigPaths { vars := [("XDG_CONFIG_DIRS", "/S/c1;/S/c:2")], platform := .posix } =
+      ["/S/c1;/S/c/pypyr/config.yaml", "2/pypyr/config.yaml"] ∧
+    commonConfigPaths { vars := [("ALLUSERSPROFILE", "/S/all")], platform := .windows } = ["/S/all/pypyr/config.yaml"] ∧
+    commonConfigPaths { vars := [], platform := .windows } = ["C:/ProgramData/pypyr/config.yaml"] ∧
+    commonConfigPaths { vars := [("ALLUSERSPROFILE", "/S/all")], platform := .macos } =
+      ["/Library/Application Support/pypyr/config.yaml"] := by decide +kernel
+
+/-! ### 11. "rejected with a config error": exactly which exceptions are `ConfigError`s -/
+
+/-- **every_init_error_is_ConfigError ↔ …** Whatever `init()` raises, on any object, in any
+    environment: it is a `ConfigError` IF AND ONLY IF it is one of the three rejections the property
+    names — the `$PYPYR_CONFIG_GLOBAL` file cannot be opened (absent, or there but unreadable: a
+    directory, …), a consulted file's top level is not a mapping, a consulted file has an unknown
+    setting. Everything else `init()` can raise (`rejections_are_config_errors`) is not: a file that
+    does not PARSE (bad YAML / TOML syntax, duplicate key, undecodable bytes — the parser's own
+    exception), `tool = 1` in `pyproject.toml` (AttributeError), a `vars` / `shortcuts` value that
+    `dict.update` refuses (TypeError / ValueError), the Android finder (OSError). -/
+theorem every_init_error_is_ConfigError (st st' : ConfigState) (e : Env) (fs : Files) (err : CfgErr)
+    (h : initOn st e fs = (st', some err)) :
+    err.isConfigError = true ↔
+      ∃ l ∈ lookOrder e,
+        (l.mustExist = true ∧ fs.opens l.path = false ∧ err = .notFound l.path) ∨
+        (∃ t, fs.get? l.path = some (.nonMapping t) ∧ err = .notMapping l.path) ∨
+        (∃ kvs, fs.get? l.path = some (.mapping kvs) ∧ unknownKeys kvs ≠ [] ∧
+          err = .unknownProps (unknownKeys kvs)) := by
+  constructor
+  · intro hc
+    unfold initOn at h
+    by_cases hs : e.skip = true
+    · simp [hs] at h
+    · by_cases hp : e.platformFails = true
+      · simp only [hs, Bool.false_eq_true, if_false, hp, if_true, Prod.mk.injEq, Option.some.injEq] at h
+        rw [← h.2] at hc
+        cases hc
+      · simp only [hs, Bool.false_eq_true, if_false, hp] at h
+        obtain ⟨lower, l, higher, st1, hsplit, _, hl⟩ := runLooks_err_split h
+        refine ⟨l, by rw [hsplit]; simp, ?_⟩
+        exact (handlePath_err fs st1 st' l err hl).1.mp hc
+  · rintro ⟨l, _, ⟨_, _, he⟩ | ⟨t, _, he⟩ | ⟨kvs, _, _, he⟩⟩ <;> subst he <;> rfl
+
+/-- the per-file form: `handle_path` on a file raises a `ConfigError` exactly when the file is a
+    non-mapping or a mapping with an unknown key (in either iteration order of the dict props) — a
+    property of the file alone, not of the object or of the files before it. -/
+theorem file_error_is_config_error_iff (rev : Bool) (st st' : ConfigState) (path : String) (p : Payload)
+    (err : CfgErr) (h : applyFileStOrd rev st path p = (st', some err)) :
+    err.isConfigError = true ↔
+      (∃ t, p = .nonMapping t ∧ err = .notMapping path) ∨
+      (∃ kvs, p = .mapping kvs ∧ unknownKeys kvs ≠ [] ∧ err = .unknownProps (unknownKeys kvs)) :=
+  (applyFileStOrd_err rev st st' path p err h).1
+
+-- the non-ConfigErrors, one witness each
+example :
+    (initSt exEnv (("/S/xh/pypyr/config.yaml", .parseError "ScannerError") :: exFiles)).2
+      = some (.parse "/S/xh/pypyr/config.yaml" "ScannerError") ∧
+    (CfgErr.parse "/S/xh/pypyr/config.yaml" "ScannerError").isConfigError = false ∧
+    (initSt exEnv [("pyproject.toml", .toolNotTable)]).2 = some .toolNotTable ∧
+    CfgErr.toolNotTable.name = "AttributeError" ∧
+    (initSt exEnv [("pypyr-config.yaml", .mapping [("vars", .str "ab")])]).2 = some (.dictUpdate "vars" "ValueError") ∧
+    (initSt exEnv [("pypyr-config.yaml", .mapping [("vars", .none)])]).2 = some (.dictUpdate "vars" "TypeError") := by
+  decide +kernel
+
+-- an unreadable optional file is an absent file; an unreadable `$PYPYR_CONFIG_GLOBAL` "could not be opened"
+example :
+    initSt exEnv (("/S/xh/pypyr/config.yaml", .unreadable "isDirectory") :: exFiles) = initSt exEnv exFiles ∧
+    (initSt exEnvGlobal (("/S/g.yaml", .unreadable "isDirectory") :: exFiles)).2 = some (.notFound "/S/g.yaml") := by
+  decide +kernel
+
+/-! ### 12. Rejection is per file: what a failed `init()` leaves behind -/
+
+/-- **failed_init_leaves_lower_applied.** When `init()` raises at the look-up `l`, every file
+    before `l` (lower precedence) HAS been applied and stays applied: the object's scalars and loaded
+    paths are exactly those after the lower files (each scalar: the value of the highest of the LOWER
+    files that sets it, else what the object had), `l` and everything after it contributed nothing to
+    them; after a `ConfigError` the whole object is exactly the object after the lower files. The
+    object is half-configured, not reset. -/
+theorem failed_init_leaves_lower_applied (st st' : ConfigState) (e : Env) (fs : Files) (err : CfgErr)
+    (hs : e.skip = false) (hp : e.platformFails = false) (h : initOn st e fs = (st', some err)) :
+    ∃ lower l higher st1, lookOrder e = lower ++ l :: higher ∧ runLooks fs st lower = (st1, none) ∧
+      st'.scalars = st1.scalars ∧ st'.loaded = st1.loaded ∧ (err.isConfigError = true → st' = st1) ∧
+      st'.loaded = st.loaded ++ loadedOf fs lower ∧
+      ∀ k d, st.scalar? k = some d →
+        st'.scalar? k = some ((highest k ((payloadsOf fs lower).map (·.2))).getD d) := by
+  rw [initOn_unfold st e fs hs hp] at h
+  obtain ⟨lower, l, higher, st1, hsplit, hlow, hl⟩ := runLooks_err_split h
+  obtain ⟨_, hst, hsc, hld⟩ := handlePath_err fs st1 st' l err hl
+  refine ⟨lower, l, higher, st1, hsplit, hlow, hsc, hld, hst, ?_, ?_⟩
+  · rw [hld, runLooks_ok_loaded hlow]
+  · intro k d hd
+    have := scalar_highest_wins_list st st1 _ (runLooks_ok_applyAll hlow) k d hd
+    simpa [ConfigState.scalar?, hsc] using this
+
+/-- **half_configured_witness.** The lowest file changes the log format, the local file has an
+    unknown key: `init()` raises the ConfigError and the singleton keeps the changed log format (the
+    CLI then reports the error with it). -/
+theorem half_configured_witness :
+    initSt exEnv [("/S/c2/pypyr/config.yaml", .mapping [("log_notify_format", .str "LOW %(message)s")]),
+                  ("pypyr-config.yaml", .mapping [("bogus", .int 1), ("json_indent", .int 6)])] =
+      ({ defaults exEnv with
+          scalars := overwriteScalars (defaults exEnv).scalars [("log_notify_format", .str "LOW %(message)s")],
+          loaded := ["/S/c2/pypyr/config.yaml"] },
+       some (.unknownProps ["bogus"])) := by
+  decide +kernel
+
+/-! ### 13. `vars` / `shortcuts` values that are not mappings; `$PYTHONHASHSEED` -/
+
+/-- `vars: [[a, 1], [b, 2]]` — a list of pairs — is accepted by `dict.update` and merged like the
+    mapping `{a: 1, b: 2}`; `vars: "ab"` is a `ValueError`, `vars: [[a, 1], [b]]` a `ValueError`
+    AFTER `a` has been set, `vars: [[a, 1], 5]` a `TypeError` after `a` has been set. -/
+example :
+    (applyFileSt (defaults exEnv) "f" (.mapping [("vars", .list [.list [.str "a", .int 1], .list [.str "b", .int 2]])])).1.dict? "vars"
+      = some [(.str "a", .int 1), (.str "b", .int 2)] ∧
+    (applyFileSt (defaults exEnv) "f" (.mapping [("vars", .list [.list [.str "a", .int 1], .list [.str "b", .int 2]])])).2 = none ∧
+    (applyFileSt (defaults exEnv) "f" (.mapping [("vars", .str "ab")])).2 = some (.dictUpdate "vars" "ValueError") ∧
+    applyFileSt (defaults exEnv) "f" (.mapping [("vars", .list [.list [.str "a", .int 1], .list [.str "b"]])])
+      = ({ defaults exEnv with dicts := [("shortcuts", []), ("vars", [(.str "a", .int 1)])] }, some (.dictUpdate "vars" "ValueError")) ∧
+    (applyFileSt (defaults exEnv) "f" (.mapping [("vars", .list [.list [.str "a", .int 1], .int 5])])).2
+      = some (.dictUpdate "vars" "TypeError") := by
+  decide +kernel
+
+/-- the declarative reading covers them: a list of pairs says about `vars[key]` what the mapping says. -/
+example : dictSettingOf (.mapping [("vars", .list [.list [.str "a", .int 1], .list [.str "a", .int 2]])]) "vars" (.str "a")
+    = some (.int 2) := by decide +kernel
+
+/-- **update_order_irrelevant_when_accepted.** If the file gives no dict prop a value `dict.update`
+    refuses, the iteration order of `keys & dict_props` (i.e. `$PYTHONHASHSEED`) cannot be observed:
+    a whole `init()` is the same in either order. -/
+theorem update_order_irrelevant_when_accepted (rev : Bool) (st : ConfigState) (e : Env) (fs : Files)
+    (h : NoBadDictProp fs (lookOrder e)) : initOnOrd rev st e fs = initOn st e fs := by
+  unfold initOnOrd initOn
+  rw [runLooksOrd_agree rev fs (lookOrder e) h st]
+
+theorem initOnOrd_false (st : ConfigState) (e : Env) (fs : Files) : initOnOrd false st e fs = initOn st e fs := by
+  unfold initOnOrd initOn
+  rw [runLooksOrd_false]
+
+/-- **update_raises_in_either_order.** `Config.update` raises in one order iff it raises in the
+    other: iff the file has an unknown key or gives a dict prop of the object a refused value. -/
+theorem update_raises_in_either_order (rev : Bool) (st : ConfigState) (kvs : Ctx) :
+    (updateOrd rev st kvs).2.isSome =
+      (!(unknownKeys kvs).isEmpty || st.dicts.any (fun nd => badDictProp kvs nd.1)) := by
+  unfold updateOrd
+  simp only
+  cases hu : unknownKeys kvs with
+  | cons a as => simp
+  | nil =>
+    simp only [List.isEmpty_nil, Bool.not_true, Bool.false_eq_true, if_false, Bool.false_or]
+    have := updateDictsOrd_err_both st.dicts kvs rev
+    cases hd : updateDictsOrd rev st.dicts kvs with
+    | mk ds e =>
+      rw [hd] at this
+      cases e <;> simpa using this
+
+/-- **update_error_state_either_order.** In whichever order: an exception out of `Config.update`
+    leaves every scalar, the loaded paths and the skip flag untouched; it is the ConfigError for the
+    unknown keys (nothing at all touched) or `dict.update`'s own error naming a dict prop with a
+    refused value. What the order decides is only WHICH of two refused dict props is named and
+    whether the other dict prop has been merged yet. -/
+theorem update_error_state_either_order (rev : Bool) (st st' : ConfigState) (kvs : Ctx) (err : CfgErr)
+    (h : updateOrd rev st kvs = (st', some err)) :
+    st'.scalars = st.scalars ∧ st'.loaded = st.loaded ∧ st'.skipInit = st.skipInit ∧
+    ((unknownKeys kvs ≠ [] ∧ err = .unknownProps (unknownKeys kvs) ∧ st' = st) ∨
+     (unknownKeys kvs = [] ∧ ∃ n exc, err = .dictUpdate n exc ∧ badDictProp kvs n = true)) :=
+  updateOrd_err_state rev st st' kvs err h
+
+/-- **hash_order_witness.** `shortcuts: 5` (refused) and `vars: {a: 1}` in one file: iterated
+    `shortcuts` first the TypeError comes before `vars` is touched; iterated `vars` first, `a` is in
+    `vars` when the TypeError comes. Same exception, different state. -/
+theorem hash_order_witness :
+    let kvs : Ctx := [("shortcuts", .int 5), ("vars", .dict [(.str "a", .int 1)])]
+    (updateOrd false (defaults exEnv) kvs).2 = some (.dictUpdate "shortcuts" "TypeError") ∧
+    (updateOrd true (defaults exEnv) kvs).2 = some (.dictUpdate "shortcuts" "TypeError") ∧
+    (updateOrd false (defaults exEnv) kvs).1.dict? "vars" = some [] ∧
+    (updateOrd true (defaults exEnv) kvs).1.dict? "vars" = some [(.str "a", .int 1)] := by
+  decide +kernel
+
+/-! ### 14. `init()` twice; a file listed twice -/
+
+/-- **init_twice.** `init()` again on the same object, same environment, same files: it succeeds
+    again (whether it succeeds never depends on what the object holds), every scalar and every entry
+    of `vars` / `shortcuts` is what it was after the first call (idempotent), and
+    `config_loaded_paths` has every loaded path a second time. -/
+theorem init_twice (st st1 : ConfigState) (e : Env) (fs : Files) (hs : e.skip = false)
+    (h1 : initOn st e fs = (st1, none)) :
+    ∃ st2, initOn st1 e fs = (st2, none) ∧
+      (∀ k, st2.scalar? k = st1.scalar? k) ∧
+      (∀ name d1, st1.dict? name = some d1 →
+        ∃ d2, st2.dict? name = some d2 ∧ ∀ key, dictGet? d2 key = dictGet? d1 key) ∧
+      st1.loaded = st.loaded ++ loadedOf fs (lookOrder e) ∧
+      st2.loaded = st.loaded ++ loadedOf fs (lookOrder e) ++ loadedOf fs (lookOrder e) := by
+  obtain ⟨hp, hr1⟩ := initOn_ok hs h1
+  have hnames := (runLooks_ok_names fs (lookOrder e) st st st1 rfl hr1).2
+  -- names of the dict props are kept, so the same look-ups succeed from st1
+  obtain ⟨⟨st2, hr2⟩, _⟩ := runLooks_ok_names fs (lookOrder e) st st1 st1 hnames hr1
+  have h2 : initOn st1 e fs = (st2, none) := by rw [initOn_unfold st1 e fs hs hp]; exact hr2
+  have ha1 := runLooks_ok_applyAll hr1
+  have ha2 := runLooks_ok_applyAll hr2
+  refine ⟨st2, h2, ?_, ?_, runLooks_ok_loaded hr1, ?_⟩
+  · intro k
+    rw [applyAll_ok_scalar ha2 k, applyAll_ok_scalar ha1 k]
+    cases st.scalar? k with
+    | none => rfl
+    | some d =>
+      simp only [Option.map_some]
+      cases highest k ((payloadsOf fs (lookOrder e)).map (·.2)) <;> rfl
+  · intro name d1 hd1
+    obtain ⟨d2, hd2, hk2⟩ := applyAll_ok_dict ha2 name d1 hd1
+    refine ⟨d2, hd2, fun key => ?_⟩
+    rw [hk2 key]
+    -- d1 itself is the overlay of the files on what st had
+    cases hd0 : st.dict? name with
+    | none =>
+      have := applyAll_ok_dict_none ha1 name hd0
+      rw [this] at hd1
+      cases hd1
+    | some d0 =>
+      obtain ⟨d1', hd1', hk1⟩ := applyAll_ok_dict ha1 name d0 hd0
+      rw [hd1] at hd1'
+      cases hd1'
+      rw [hk1 key]
+      cases highestDict name key ((payloadsOf fs (lookOrder e)).map (·.2)) <;> simp
+  · rw [runLooks_ok_loaded hr2, runLooks_ok_loaded hr1]
+
+-- twice on the singleton: same settings, every path twice
+example :
+    let s1 := (initSt exEnv exFiles).1
+    (initOn s1 exEnv exFiles).2 = none ∧
+    (initOn s1 exEnv exFiles).1.scalars = s1.scalars ∧ (initOn s1 exEnv exFiles).1.dicts = s1.dicts ∧
+    (initOn s1 exEnv exFiles).1.loaded = s1.loaded ++ s1.loaded ∧ s1.loaded.length = 4 := by
+  decide +kernel
+
+/-- **file_listed_twice_scalar / _dict.** A file that is looked up twice (`$XDG_CONFIG_DIRS`
+    contains `~/.config`, so the user file is also a common file; a directory listed twice; the
+    Android finder) is merged twice — which changes nothing: what wins for every scalar and every
+    dict entry is what wins with the EARLIER occurrence dropped. (Its path is in
+    `config_loaded_paths` twice.) -/
+theorem file_listed_twice_scalar (k : String) (pre mid post : List Payload) (x : Payload) :
+    highest k (pre ++ x :: mid ++ x :: post) = highest k (pre ++ mid ++ x :: post) := by
+  rw [highest_eq_lastSome, highest_eq_lastSome]; exact lastSome_dup _ pre mid post x
+
+theorem file_listed_twice_dict (d : String) (key : Val) (pre mid post : List Payload) (x : Payload) :
+    highestDict d key (pre ++ x :: mid ++ x :: post) = highestDict d key (pre ++ mid ++ x :: post) := by
+  rw [highestDict_eq_lastSome, highestDict_eq_lastSome]; exact lastSome_dup _ pre mid post x
+
+/-- `$XDG_CONFIG_DIRS=/S/c1:/S/xh` with `$XDG_CONFIG_HOME=/S/xh`: the user file is consulted twice;
+    the outcome (every scalar, every entry of `vars`; the insertion order inside `vars` aside) is the one
+    with `/S/xh` not listed among the common directories. -/
+def exEnvDup : Env := { vars := [("XDG_CONFIG_DIRS", "/S/c1:/S/xh"), ("XDG_CONFIG_HOME", "/S/xh")], home := "/S/home" }
+def exEnvNoDup : Env := { vars := [("XDG_CONFIG_DIRS", "/S/c1"), ("XDG_CONFIG_HOME", "/S/xh")], home := "/S/home" }
+def exFilesDup : Files :=
+  ("/S/xh/pypyr/config.yaml", .mapping [("json_indent", .int 7), ("vars", .dict [(.str "u", .int 1)])]) :: exFiles
+
+example :
+    (initOrder exEnvDup).map (·.path) = ["/S/xh/pypyr/config.yaml", "/S/c1/pypyr/config.yaml", "/S/xh/pypyr/config.yaml",
+                                    "pyproject.toml", "pypyr-config.yaml"] ∧
+    (initSt exEnvDup exFilesDup).1.scalars = (initSt exEnvNoDup exFilesDup).1.scalars ∧
+    (((initSt exEnvDup exFilesDup).1.dict? "vars").map fun d => [dictGet? d (.str "u"), dictGet? d (.str "a"), dictGet? d (.str "c"), dictGet? d (.str "z")]) =
+      (((initSt exEnvNoDup exFilesDup).1.dict? "vars").map fun d => [dictGet? d (.str "u"), dictGet? d (.str "a"), dictGet? d (.str "c"), dictGet? d (.str "z")]) ∧
+    (initSt exEnvDup exFilesDup).1.loaded = "/S/xh/pypyr/config.yaml" :: (initSt exEnvNoDup exFilesDup).1.loaded := by
+  decide +kernel
 
 /-! ### 9. Static tie: the tables in the source are the tables of the model -/
 
@@ -521,7 +870,11 @@ theorem config_props_agree :
     defaults *inside `init`* (`initGetenv`) — while `Config.__init__` reads only the three env-derived
     defaults (`ctorGetenv`) and nothing in `pypyr/config.py` reads the environment at import
     (`moduleGetenv`): which variable is read at which moment is part of the tie —, and the XDG / macOS literals of `pypyr.platform` are the ones `lookOrder`,
-    `userConfigPath`, `commonConfigPaths` and `commonBaseDefault` are written from. -/
+    `userConfigPath`, `commonConfigPaths` and `commonBaseDefault` are written from; the order of the tests in
+    `get_platform_dir_finder` (the `$ANDROID_DATA` / `$ANDROID_ROOT` test FIRST, then `win32`, `darwin`, else
+    Xdg), the literals they compare with, what the Android finder raises and where its file is; and the
+    `except` clauses: the loaders catch `OSError` and nothing else, `handle_path` / `update` / `init` catch
+    nothing — so whatever else a parser or `dict.update` raises leaves `init()` as it is. -/
 theorem init_shape_agrees :
     Generated.ConfigProps.initCalls =
       ["if|plain|var|yaml|must",
@@ -541,7 +894,16 @@ theorem init_shape_agrees :
     Generated.ConfigProps.macCommonBaseDefault = commonBaseDefault .macos ∧
     Generated.ConfigProps.xdgUserGetenv = [("XDG_CONFIG_HOME", some "")] ∧
     Generated.ConfigProps.xdgCommonGetenv = [("XDG_CONFIG_DIRS", some "")] ∧
-    Generated.ConfigProps.xdgUserExpand = ["~/.config"] := by decide +kernel
+    Generated.ConfigProps.xdgUserExpand = ["~/.config"] ∧
+    Generated.ConfigProps.winCommonGetenv = [("ALLUSERSPROFILE", some (commonBaseDefault .windows))] ∧
+    Generated.ConfigProps.finderBranches = ["env:Android", "win32:Windows", "darwin:MacOs", "else:Xdg"] ∧
+    Generated.ConfigProps.androidTests = [("ANDROID_DATA", "/data"), ("ANDROID_ROOT", "/system")] ∧
+    Generated.ConfigProps.androidRaises = ["OSError:Cannot find path to android app folder"] ∧
+    Generated.ConfigProps.androidJoin = ["android_dir.joinpath('shared_prefs', self.app_name, self.config_file_name)"] ∧
+    androidCfg "" = "/" ++ "shared_prefs" ++ "/" ++ "pypyr" ++ "/" ++ "config.yaml" ∧
+    Generated.ConfigProps.loaderExcepts =
+      [("load_yaml", ["OSError"]), ("load_pyproject_toml", ["OSError"]), ("handle_path", []), ("update", []),
+       ("init", [])] := by decide +kernel
 
 /-- The model's table is internally consistent: the defaults cover exactly the writable props,
     and `scalar_props` are the 15 non-dict ones. -/
